@@ -141,16 +141,16 @@ Utf8Ok(b) == Utf8OkAt(b, 1, Len(b))
 \* Results are triples <<ok, value, next index>>; value is Zero when ok = FALSE.
 Fail == <<FALSE, Zero, 0>>
 MkList(es, t) == IF es = <<>> THEN t ELSE IF t.k = "list" THEN VList(es \o t.e, t.t) ELSE VList(es, t)
-RECURSIVE Dec(_, _)
+RECURSIVE DecR(_, _, _)
 \* n terms starting at p (iterative over n; recursion only through nesting)
-DecN(s, p, n) ==
+DecN(s, p, n, rf) ==
   IF n > (Len(s) - p) + 1 THEN <<FALSE, <<>>, 0>> ELSE
   FoldLeft(LAMBDA st, i : IF ~st[1] THEN st ELSE
-                            LET r == Dec(s, st[3]) IN IF r[1] THEN <<TRUE, Append(st[2], r[2]), r[3]>> ELSE <<FALSE, <<>>, 0>>,
+                            LET r == DecR(s, st[3], rf) IN IF r[1] THEN <<TRUE, Append(st[2], r[2]), r[3]>> ELSE <<FALSE, <<>>, 0>>,
            <<TRUE, <<>>, p>>, [i \in 1..n |-> i])
-DecAtomAt(s, p) == LET r == Dec(s, p) IN IF r[1] /\ r[2].k = "atom" THEN r ELSE Fail
+DecAtomAt(s, p, rf) == LET r == DecR(s, p, rf) IN IF r[1] /\ r[2].k = "atom" THEN r ELSE Fail
 Pairs(es) == [i \in 1..(Len(es) \div 2) |-> <<es[(2 * i) - 1], es[2 * i]>>]
-Dec(s, p0) ==
+DecR(s, p0, rf) ==
   IF ~Has(s, p0, 1) THEN Fail ELSE
   LET t == s[p0]  p == p0 + 1 IN
   CASE t = 97  -> IF Has(s, p, 1) THEN <<TRUE, SmallInt(s[p]), p + 1>> ELSE Fail
@@ -170,15 +170,15 @@ Dec(s, p0) ==
     [] t = 100 -> IF Has(s, p, 2) /\ Has(s, p, 2 + B16At(s, p))
                   THEN <<TRUE, VAtom(Latin1ToUtf8(Sl(s, p + 2, B16At(s, p)))), p + 2 + B16At(s, p)>> ELSE Fail
     [] t = 104 -> IF ~Has(s, p, 1) THEN Fail ELSE
-                  LET x == DecN(s, p + 1, s[p]) IN IF x[1] THEN <<TRUE, VTuple(x[2]), x[3]>> ELSE Fail
+                  LET x == DecN(s, p + 1, s[p], rf) IN IF x[1] THEN <<TRUE, VTuple(x[2]), x[3]>> ELSE Fail
     [] t = 105 -> IF ~Has(s, p, 4) \/ B32At(s, p) < 0 THEN Fail ELSE
-                  LET x == DecN(s, p + 4, B32At(s, p)) IN IF x[1] THEN <<TRUE, VTuple(x[2]), x[3]>> ELSE Fail
+                  LET x == DecN(s, p + 4, B32At(s, p), rf) IN IF x[1] THEN <<TRUE, VTuple(x[2]), x[3]>> ELSE Fail
     [] t = 106 -> <<TRUE, VNil, p>>
     [] t = 107 -> IF Has(s, p, 2) /\ Has(s, p, 2 + B16At(s, p))
                   THEN <<TRUE, MkList([i \in 1..B16At(s, p) |-> SmallInt(s[p + 1 + i])], VNil), p + 2 + B16At(s, p)>> ELSE Fail
     [] t = 108 -> IF ~Has(s, p, 4) \/ B32At(s, p) < 0 THEN Fail ELSE
-                  LET x == DecN(s, p + 4, B32At(s, p)) IN IF ~x[1] THEN Fail ELSE
-                  LET tl == Dec(s, x[3]) IN IF ~tl[1] THEN Fail ELSE <<TRUE, MkList(x[2], tl[2]), tl[3]>>
+                  LET x == DecN(s, p + 4, B32At(s, p), rf) IN IF ~x[1] THEN Fail ELSE
+                  LET tl == DecR(s, x[3], rf) IN IF ~tl[1] THEN Fail ELSE <<TRUE, MkList(x[2], tl[2]), tl[3]>>
     [] t = 109 -> IF Has(s, p, 4) /\ B32At(s, p) >= 0 /\ Has(s, p, 4 + B32At(s, p))
                   THEN <<TRUE, VBin(Sl(s, p + 4, B32At(s, p))), p + 4 + B32At(s, p)>> ELSE Fail
     [] t = 77  -> IF Has(s, p, 5) /\ B32At(s, p) >= 0 /\ Has(s, p, 5 + B32At(s, p)) /\ s[p + 4] >= 1 /\ s[p + 4] <= 8
@@ -186,44 +186,48 @@ Dec(s, p0) ==
                   THEN <<TRUE, IF s[p + 4] = 8 THEN VBin(Sl(s, p + 5, B32At(s, p))) ELSE VBits(Sl(s, p + 5, B32At(s, p)), s[p + 4]),
                          p + 5 + B32At(s, p)>> ELSE Fail
     [] t = 116 -> IF ~Has(s, p, 4) \/ B32At(s, p) < 0 \/ B32At(s, p) > Len(s) THEN Fail ELSE
-                  LET x == DecN(s, p + 4, 2 * B32At(s, p)) IN
+                  LET x == DecN(s, p + 4, 2 * B32At(s, p), rf) IN
                   IF ~x[1] THEN Fail ELSE
                   LET kv == Pairs(x[2]) IN
                   IF Cardinality({kv[i][1] : i \in 1..Len(kv)}) # Len(kv) THEN Fail
                   ELSE <<TRUE, VMap(CanonMap(kv)), x[3]>>
-    [] t = 88  -> LET n == DecAtomAt(s, p) IN IF n[1] /\ Has(s, n[3], 12)
+    [] t = 88  -> LET n == DecAtomAt(s, p, rf) IN IF n[1] /\ Has(s, n[3], 12)
                   THEN <<TRUE, VPid(n[2], Sl(s, n[3], 4), Sl(s, n[3] + 4, 4), Sl(s, n[3] + 8, 4), <<>>), n[3] + 12>> ELSE Fail
-    [] t = 103 -> LET n == DecAtomAt(s, p) IN IF n[1] /\ Has(s, n[3], 9)
+    [] t = 103 -> LET n == DecAtomAt(s, p, rf) IN IF n[1] /\ Has(s, n[3], 9)
                   THEN <<TRUE, VPid(n[2], Sl(s, n[3], 4), Sl(s, n[3] + 4, 4), <<0, 0, 0, s[n[3] + 8]>>, <<>>), n[3] + 9>> ELSE Fail
-    [] t = 120 -> LET n == DecAtomAt(s, p) IN IF n[1] /\ Has(s, n[3], 12)
+    [] t = 120 -> LET n == DecAtomAt(s, p, rf) IN IF n[1] /\ Has(s, n[3], 12)
                   THEN <<TRUE, VPort(n[2], Sl(s, n[3], 8), Sl(s, n[3] + 8, 4), <<>>), n[3] + 12>> ELSE Fail
-    [] t = 89  -> LET n == DecAtomAt(s, p) IN IF n[1] /\ Has(s, n[3], 8)
+    [] t = 89  -> LET n == DecAtomAt(s, p, rf) IN IF n[1] /\ Has(s, n[3], 8)
                   THEN <<TRUE, VPort(n[2], <<0, 0, 0, 0>> \o Sl(s, n[3], 4), Sl(s, n[3] + 4, 4), <<>>), n[3] + 8>> ELSE Fail
-    [] t = 102 -> LET n == DecAtomAt(s, p) IN IF n[1] /\ Has(s, n[3], 5)
+    [] t = 102 -> LET n == DecAtomAt(s, p, rf) IN IF n[1] /\ Has(s, n[3], 5)
                   THEN <<TRUE, VPort(n[2], <<0, 0, 0, 0>> \o Sl(s, n[3], 4), <<0, 0, 0, s[n[3] + 4]>>, <<>>), n[3] + 5>> ELSE Fail
-    [] t = 90  -> IF ~Has(s, p, 2) THEN Fail ELSE LET n == DecAtomAt(s, p + 2) w == B16At(s, p) IN
+    [] t = 90  -> IF ~Has(s, p, 2) THEN Fail ELSE LET n == DecAtomAt(s, p + 2, rf) w == B16At(s, p) IN
                   IF n[1] /\ Has(s, n[3], 4 + (4 * w))
                   THEN <<TRUE, VRef(n[2], Sl(s, n[3], 4), [i \in 1..w |-> Sl(s, n[3] + (4 * i), 4)], <<>>), n[3] + 4 + (4 * w)>> ELSE Fail
-    [] t = 114 -> IF ~Has(s, p, 2) THEN Fail ELSE LET n == DecAtomAt(s, p + 2) w == B16At(s, p) IN
+    [] t = 114 -> IF ~Has(s, p, 2) THEN Fail ELSE LET n == DecAtomAt(s, p + 2, rf) w == B16At(s, p) IN
                   IF n[1] /\ Has(s, n[3], 1 + (4 * w))
                   THEN <<TRUE, VRef(n[2], <<0, 0, 0, s[n[3]]>>, [i \in 1..w |-> Sl(s, n[3] + (4 * i) - 3, 4)], <<>>), n[3] + 1 + (4 * w)>> ELSE Fail
-    [] t = 101 -> LET n == DecAtomAt(s, p) IN IF n[1] /\ Has(s, n[3], 5)
+    [] t = 101 -> LET n == DecAtomAt(s, p, rf) IN IF n[1] /\ Has(s, n[3], 5)
                   THEN <<TRUE, VRef(n[2], <<0, 0, 0, s[n[3] + 4]>>, <<Sl(s, n[3], 4)>>, <<>>), n[3] + 5>> ELSE Fail
-    [] t = 113 -> LET m == DecAtomAt(s, p) IN IF ~m[1] THEN Fail ELSE
-                  LET f == DecAtomAt(s, m[3]) IN IF ~f[1] THEN Fail ELSE
-                  LET a == Dec(s, f[3]) IN IF a[1] /\ a[2].k = "int" /\ ~a[2].neg /\ Len(a[2].mag) <= 1
+    [] t = 113 -> LET m == DecAtomAt(s, p, rf) IN IF ~m[1] THEN Fail ELSE
+                  LET f == DecAtomAt(s, m[3], rf) IN IF ~f[1] THEN Fail ELSE
+                  LET a == DecR(s, f[3], rf) IN IF a[1] /\ a[2].k = "int" /\ ~a[2].neg /\ Len(a[2].mag) <= 1
                   THEN <<TRUE, VExport(m[2], f[2], IF a[2].mag = <<>> THEN 0 ELSE a[2].mag[1]), a[3]>> ELSE Fail
     [] t = 112 -> IF ~Has(s, p, 29) \/ B32At(s, p) < 29 \/ ~Has(s, p, B32At(s, p)) \/ B32At(s, p + 25) < 0 THEN Fail ELSE
                   LET size == B32At(s, p)  nf == B32At(s, p + 25)
-                      m == DecAtomAt(s, p + 29) IN IF ~m[1] THEN Fail ELSE
-                  LET oi == Dec(s, m[3]) IN IF ~oi[1] \/ oi[2].k # "int" THEN Fail ELSE
-                  LET ou == Dec(s, oi[3]) IN IF ~ou[1] \/ ou[2].k # "int" THEN Fail ELSE
-                  LET pd == Dec(s, ou[3]) IN IF ~pd[1] \/ pd[2].k # "pid" THEN Fail ELSE
-                  LET fv == DecN(s, pd[3], nf) IN IF ~fv[1] \/ fv[3] # p + size THEN Fail ELSE
+                      m == DecAtomAt(s, p + 29, rf) IN IF ~m[1] THEN Fail ELSE
+                  LET oi == DecR(s, m[3], rf) IN IF ~oi[1] \/ oi[2].k # "int" THEN Fail ELSE
+                  LET ou == DecR(s, oi[3], rf) IN IF ~ou[1] \/ ou[2].k # "int" THEN Fail ELSE
+                  LET pd == DecR(s, ou[3], rf) IN IF ~pd[1] \/ pd[2].k # "pid" THEN Fail ELSE
+                  LET fv == DecN(s, pd[3], nf, rf) IN IF ~fv[1] \/ fv[3] # p + size THEN Fail ELSE
                   <<TRUE, VFun(s[p + 4], Sl(s, p + 5, 16), Sl(s, p + 21, 4), m[2], oi[2], ou[2], pd[2], fv[2]), fv[3]>>
-    [] t = 121 -> IF ~Has(s, p, 8) THEN Fail ELSE LET x == Dec(s, p + 8) IN IF ~x[1] THEN Fail ELSE
+    [] t = 121 -> IF ~Has(s, p, 8) THEN Fail ELSE LET x == DecR(s, p + 8, rf) IN IF ~x[1] THEN Fail ELSE
                   <<TRUE, IF x[2].k \in {"pid", "port", "ref"} /\ x[2].loc = <<>> THEN [x[2] EXCEPT !.loc = Sl(s, p, 8)] ELSE x[2], x[3]>>
+    [] t = 82  -> IF Has(s, p, 1) /\ s[p] + 1 <= Len(rf) THEN <<TRUE, rf[s[p] + 1], p + 1>> ELSE Fail     \* ATOM_CACHE_REF: k-th reference of this header
     [] OTHER   -> Fail
+
+\* without a distribution header there are no cached-atom references
+Dec(s, p) == DecR(s, p, <<>>)
 
 \* COMPRESSED is admissible at the top level only (after the version byte)
 DecCompressed(s) == \* s[2] = 80
